@@ -103,11 +103,13 @@ def impl(case):
     variants = [(v["id"], v["chrom"], v["pos"], v["alleles"]) for v in case["variants"]]
     data = [[tuple(c) for c in row] for row in case["data"]]
     kinds = case.get("kinds", ["vcf", "pgen"])
+    # per-chromosome style names (g.chr1.*) beside an unrelated older fileset g.*
+    GF.decoy_fileset(d / "g")
     if "vcf" in kinds:
-        GF.write_vcf_text(d / "g.vcf", case["samples"], variants, data, contigs=sorted({v["chrom"] for v in case["variants"]}))
-        GF.compress_index(d / "g.vcf", d / "g.vcf.gz")
-    GF.write_pgen(d / "g", case["samples"], variants, data)
-    files = [(k, p) for k, p in (("vcf", d / "g.vcf.gz"), ("pgen", d / "g.pgen")) if k in kinds]
+        GF.write_vcf_text(d / "g.chr1.vcf", case["samples"], variants, data, contigs=sorted({v["chrom"] for v in case["variants"]}))
+        GF.compress_index(d / "g.chr1.vcf", d / "g.chr1.vcf.gz")
+    GF.write_pgen(d / "g.chr1", case["samples"], variants, data)
+    files = [(k, p) for k, p in (("vcf", d / "g.chr1.vcf.gz"), ("pgen", d / "g.chr1.pgen")) if k in kinds]
     out = {"full": {}, "restricted": []}
     for kind, path in files:
         out["full"][kind] = read_one(kind, path, {"region": None, "samples": None, "ids": None, "max": None, "chunk": None}, False)
